@@ -158,7 +158,7 @@ def gen_c03(rnd, n, thorough=False):
             else:
                 ident = rnd.pick([-1, -1] + list(range(k)))
                 cnt = rnd.pick([0, 1, 2, 3, 5, 8, 20 if thorough else 8])
-                kind = rnd.pick(['mixed', 'mixed', 'onestale', 'allstale', 'fresh', 'sameslot'])
+                kind = rnd.pick(['mixed', 'mixed', 'onestale', 'allstale', 'fresh', 'sameslot', 'monotone_dups'])
                 pts = []
                 for _j in range(cnt):
                     if kind == 'fresh':
@@ -181,6 +181,11 @@ def gen_c03(rnd, n, thorough=False):
                     pts += [(t0, value(rnd, nan_ok))]
                 if rnd.chance(0.7):
                     rnd.shuffle(pts)
+                if kind == 'monotone_dups' and pts:
+                    # equal timestamps with different values inside a monotone (ascending or
+                    # descending) batch: an order-dependent sort shortcut shows here
+                    pts += [(rnd.pick(pts)[0], value(rnd, nan_ok)) for _j in range(rnd.randint(1, 3))]
+                    pts.sort(key=lambda tv: tv[0], reverse=rnd.chance(0.6))
                 Rlim = rets[-1] if ident == -1 else rets[ident]
                 tags['stale_points'] += sum(1 for t, _ in pts if now - t >= Rlim)
                 tags['boundary_ages'] += sum(1 for t, _ in pts if any(abs(now - t - R) <= 1 for R in rets))
